@@ -14,20 +14,31 @@ LEVEL_TEXT = ('Partial. Coq theorems over R about the energy kernels re-translat
               'single-branch AND the complete three-branch (Prony) viscoelastic incremental energies, the phase-field threshold model; '
               'isotropy of the stateful models holds for every admissible internal state (state tensors rotated with the reference '
               'configuration), objectivity for every state; zero rest energy for every model and option; zero rest stress (Coquelicot '
-              'derivative along every straight path) for the closed-form models and, under the stated hypothesis that log_sqrt_symm is '
-              'differentiable at the identity with derivative 1/2 sym (LogSqrtDiffAtId, checked on the implementation by jax.jvp and '
-              'difference quotients), for every option that goes through log_sqrt_symm including the complete viscoelastic energies; '
-              'Kirchhoff-stress symmetry as a derivative statement (explicit first Piola-Kirchhoff tensor P with dW = P:D along every '
-              'direction and P F^T symmetric) for both neo-Hookean variants, Gent, the equilibrium viscoelastic energies and '
-              'linear-elastic/Green-Lagrange; the closed-form P is compared with jax.grad of the implementation. log_sqrt_symm / pow_symm '
-              'enter as hypotheses (equivariance, value at I, derivative at I). NOT proved: rest stress of J2 "seth hill" (needs the '
-              'analogous hypothesis on pow_symm), Kirchhoff-stress symmetry as a derivative statement for the models that go through the '
-              'spectral functions (needs their derivative away from the identity) -- these are only tested on the implementation (L2).')
+              'derivative along every straight path) for the closed-form models and, under the stated hypotheses that log_sqrt_symm / '
+              'pow_symm(., m) are differentiable at the identity with derivative 1/2 sym / m sym (LogSqrtDiffAtId, PowDiffAtId, checked on '
+              'the implementation by jax.jvp and difference quotients), for every option that goes through the spectral functions '
+              'including J2 "seth hill" and the complete viscoelastic energies; Kirchhoff-stress symmetry as a derivative statement: with '
+              'the explicit first Piola-Kirchhoff tensor for both neo-Hookean variants, Gent, the equilibrium viscoelastic energies and '
+              'linear-elastic/Green-Lagrange (compared with jax.grad), and FROM OBJECTIVITY (general theorem: rotation-invariant + '
+              'differentiable along every curve through H with gradient P => P F^T symmetric) for every model that goes through the '
+              'spectral functions (linear-elastic/logarithmic, J2 logarithmic and seth hill with any internal state, undamaged phase '
+              'field, complete single- and three-branch viscoelastic energies with any viscous state) under the hypothesis that the '
+              'spectral function is Hadamard-differentiable at the one argument it is called on (LogSqrtDiffAt / PowDiffAt, tied by the '
+              'stream spec_diff_checks). The hypotheses LogSqrtSpec / PowSpec (equivariance, values at I and 0) are now THEOREMS for the '
+              'spectral functions V diag(f(lam)) V^T (lss_spec / pw_spec, tied to TensorMath.log_sqrt_symm / pow_symm with the '
+              "implementation's eigen-pairs as oracle) over every eigen-solver that decomposes every symmetric matrix, and such a solver "
+              'exists (spectral theorem, proofs/L_C11e.v): isotropy and rest energies hold unconditionally for lss_R / pw_R. NOT proved: '
+              'the differentiability hypotheses themselves (at I and at a general SPD argument) for the spectral functions; Kirchhoff '
+              'symmetry of the damaged phase-field model (kink of the volumetric split at det F = 1); that eigen_sym33_unit meets the '
+              'eigen-solver contract in binary64 (C12) -- these are tested on the implementation (L2).')
 TECHNIQUE = 'Coq proof (Reals + Coquelicot + nsatz) over kernels regenerated from the Python AST; vm_compute/PrimFloat correspondence'
 GEN = ['Math', 'TensorMath', 'LinearElastic', 'Neohookean', 'Gent', 'J2Elastic', 'HyperViscoelastic', 'MultiBranchHyperViscoelastic',
        'PhaseFieldThreshold']
-TARGETS = ['model/M_C08.vo', 'model/M_C08b.vo', 'proofs/L_C08.vo', 'proofs/L_C08b.vo', 'proofs/L_C08c.vo']
-COQ_FILES = ['base/Num.v', 'model/M_C08.v', 'model/M_C08b.v', 'proofs/L_C08.v', 'proofs/L_C08b.v', 'proofs/L_C08c.v', 'props/P_C08.v']
+TARGETS = ['model/M_C08.vo', 'model/M_C08b.vo', 'model/M_C08s.vo', 'proofs/L_C08.vo', 'proofs/L_C08b.vo', 'proofs/L_C08c.vo', 'proofs/L_C08d.vo',
+           'proofs/L_C08e.vo', 'proofs/L_C08s.vo']
+COQ_FILES = ['base/Num.v', 'model/M_C08.v', 'model/M_C08b.v', 'model/M_C08s.v', 'model/M_C11s.v', 'proofs/L_C08.v', 'proofs/L_C08b.v', 'proofs/L_C08c.v',
+             'proofs/L_C08d.v', 'proofs/L_C08e.v', 'proofs/L_C08s.v', 'proofs/L_C11s.v', 'proofs/L_C11t.v', 'proofs/L_C11e.v', 'proofs/L_C11u.v',
+             'props/P_C08.v']
 BUILD_TIMEOUT = 1500
 TRUSTED = ['Coq 8.16.1 kernel + vm_compute (no native_compute)',
            'tools/vlib/py2coq.py translator (Python ast -> Gallina over Num T; np.linalg.det/inv on 3x3 modelled by cofactor formulas), '
@@ -41,6 +52,14 @@ ASSUMPTIONS = ['exact real arithmetic in theorems',
                'LogSqrtDiffAtId: for every differentiable curve C of symmetric matrices with C(0) = I, t -> log_sqrt_symm(C(t)) is differentiable at 0 '
                'with derivative C\'(0)/2 (differentiability of log_sqrt_symm at the identity with derivative 1/2 sym); tied to the implementation by '
                'the stream lss_derivative_checks (jax.jvp at I = X/2 exactly to rounding; difference quotients along (I+hD)^T(I+hD) converge at rate h)',
+               'PowDiffAtId: for every m and every differentiable curve C of symmetric matrices with C(0) = I, t -> pow_symm(C(t), m) is differentiable at 0 with '
+               'derivative m C\'(0); tied by the stream pow_derivative_checks (jax.jvp at I = m X to rounding for m in {1/4, 1/2, -1, 2}; difference quotients)',
+               'LogSqrtDiffAt lss C0 L / PowDiffAt pw m C0 L (Kirchhoff theorems of the spectral models): L is linear and for every differentiable curve C of symmetric '
+               'matrices with C(0) = C0, t -> lss(C(t)) is differentiable at 0 with derivative L(C\'(0)) (Hadamard differentiability at C0 = F^T F or (F Fv^-1)^T (F Fv^-1)); '
+               'tied by the stream spec_diff_checks (jax.jvp of log_sqrt_symm / pow_symm(., 1/4) at C0 is linear and equals the central difference quotient along the '
+               'curve (F + hD)^T (F + hD), including doubly and triply degenerate C0)',
+               'solver_ok eigh (theorems C08_*_of_spectral_function): eigh returns V, lam with V^T V = V V^T = I and V diag(lam) V^T = A for every symmetric A; '
+               'discharged in exact arithmetic by eigh_sym (proofs/L_C11e.v); for TensorMath.eigen_sym33_unit in binary64 it is measured by C11/C12',
                'Gent Kirchhoff theorem: inside the limiting-extensibility domain 1 - (I1bar - 3)/Jm > 0, Jm != 0',
                'PowSpec (J2 seth hill): pow_symm is equivariant under rotations on symmetric arguments, pow(I,m)=I (and pow(0,m)=0 for the F4 regression witness)',
                'rotation Q is stated as Q^T Q = Q Q^T = I, det Q = 1 (the two orthogonality equations are equivalent for square matrices)',
@@ -52,7 +71,7 @@ RULE = ('inputs: seeded displacement gradients H = R1 diag(stretches) R2 - I wit
         'is not the identity; distinct = distinct (model, H, Q) tuples')
 IMPORTS = ['From OV.gen Require Import Gen_TensorMath Gen_LinearElastic Gen_Neohookean Gen_Gent Gen_J2Elastic Gen_HyperViscoelastic '
            'Gen_MultiBranchHyperViscoelastic Gen_PhaseFieldThreshold.',
-           'From OV.model Require Import M_C08 M_C08b.']
+           'From OV.model Require Import M_C08 M_C08b M_C11s M_C08s.']
 
 E_MOD, NU = 10.0, 0.25
 KAPPA = E_MOD / 3.0 / (1.0 - 2.0 * NU)
@@ -458,6 +477,155 @@ def check_lss_derivative(ctx, n):
     return fails
 
 
+POW_EXPONENTS = (0.25, 0.5, -1.0, 2.0)
+_JITD = {}
+
+
+def check_pow_derivative(ctx, n):
+    """tie of PowSpec.pw_identity and PowDiffAtId (coq/proofs/L_C08d.v) to TensorMath.pow_symm: value I at I; jax.jvp at I in a
+    symmetric direction X is m X; the difference quotient along C(h) = (I+hD)^T (I+hD) (the curve of C08_rest_stress_j2_seth_hill)
+    tends to m (D+D^T) at rate h.  m = 1/4 is the Seth-Hill exponent of J2Plastic; the other exponents exercise the 'for every m'."""
+    import jax
+    import jax.numpy as np
+    import numpy as onp
+    from optimism import TensorMath
+    fails = []
+    r = ctx.rng('powd')
+    for m in POW_EXPONENTS:
+        if ('pow', m) not in _JITD:
+            _JITD[('pow', m)] = (jax.jit(lambda A, m=m: TensorMath.pow_symm(A, m)),
+                                 jax.jit(lambda X, m=m: jax.jvp(lambda A: TensorMath.pow_symm(A, m), (np.eye(3),), (X,))))
+    for k in range(n):
+        m = POW_EXPONENTS[k % len(POW_EXPONENTS)]
+        pw, jvp = _JITD[('pow', m)]
+        D = onp.array([[r.uniform(-1, 1) for _ in range(3)] for _ in range(3)])
+        X = D + D.T
+        y, dy = jvp(np.array(X))
+        e0 = float(onp.abs(onp.array(y) - onp.eye(3)).max())
+        e1 = float(onp.abs(onp.array(dy) - m * X).max())
+        ctx.count('pow_derivative_checks', 2)
+        if not (e0 <= 1e-15 and e1 <= 1e-13 * max(1.0, abs(m))):
+            fails.append(dict(kind='conclusion', concrete=True,
+                              what='pow_symm(., %r) at the identity: value differs from I by %.3g, jvp differs from m X by %.3g' % (m, e0, e1),
+                              case=dict(model='TensorMath.pow_symm', check='pow_derivative', m=m, D=D.tolist(), value=[e0, e1])))
+        errs = []
+        for h in (1e-3, 1e-5):
+            F = onp.eye(3) + h * D
+            q = (onp.array(pw(np.array(F.T @ F))) - onp.eye(3)) / h
+            errs.append(float(onp.abs(q - m * X).max()))
+            ctx.count('pow_derivative_checks')
+        nd = (float(onp.abs(D).max()) ** 2 + 1e-3) * max(1.0, abs(m)) * (1 + abs(m))
+        if not (errs[0] <= 30 * 1e-3 * nd and errs[1] <= 30 * 1e-5 * nd + 1e-9):
+            fails.append(dict(kind='conclusion', concrete=True,
+                              what='pow_symm(., %r): difference quotient along (I+hD)^T(I+hD) does not tend to m (D+D^T): errors %r at h=1e-3,1e-5' % (m, errs),
+                              case=dict(model='TensorMath.pow_symm', check='pow_derivative', m=m, D=D.tolist(), value=errs)))
+    return fails
+
+
+def check_spec_diff(ctx, cases):
+    """tie of the hypotheses LogSqrtDiffAt / PowDiffAt (coq/proofs/L_C08e.v: Hadamard differentiability of the spectral function at the
+    argument it is called on) to TensorMath.log_sqrt_symm and pow_symm(., 1/4): at C0 = Fe^T Fe (Fe = F for the virgin state, F Fv^-1 with
+    a random viscous/plastic distortion otherwise; all deformation kinds incl. two and three equal principal stretches) the implementation's
+    derivative L = jax.jvp at C0 (i) is linear and (ii) equals the central difference quotient of the function along the symmetric curve
+    C(h) = (Fe + hD)^T (Fe + hD) through C0, whose tangent is Fe^T D + D^T Fe -- the curve of the Kirchhoff theorems."""
+    import jax
+    import jax.numpy as np
+    import numpy as onp
+    from optimism import TensorMath
+    fails = []
+    r = ctx.rng('specd')
+    if 'spec' not in _JITD:
+        fl = TensorMath.log_sqrt_symm
+        fp = lambda A: TensorMath.pow_symm(A, 0.25)
+        _JITD['spec'] = [(name, jax.jit(f), jax.jit(lambda A, X, f=f: jax.jvp(f, (A,), (X,))[1]))
+                         for name, f in (('TensorMath.log_sqrt_symm', fl), ('TensorMath.pow_symm(.,1/4)', fp))]
+    worst = 0.0
+    for k, (H, kind, Q) in enumerate(cases):
+        Fe = onp.array(H) + onp.eye(3)
+        if k % 2:
+            G, _ = gen_H(r)
+            T = onp.eye(3) + 0.2 * r.uniform(0.05, 1) * onp.array(G) / max(fro(G), 1e-30)
+            Fe = Fe @ onp.linalg.inv(T / onp.cbrt(onp.linalg.det(T)))
+        C0 = Fe.T @ Fe
+        D = onp.array([[r.uniform(-1, 1) for _ in range(3)] for _ in range(3)])
+        D2 = onp.array([[r.uniform(-1, 1) for _ in range(3)] for _ in range(3)])
+        X, Y = Fe.T @ D + D.T @ Fe, Fe.T @ D2 + D2.T @ Fe
+        a, b = r.uniform(-2, 2), r.uniform(-2, 2)
+        h = 1e-5
+        Cp, Cm = (Fe + h * D).T @ (Fe + h * D), (Fe - h * D).T @ (Fe - h * D)
+        for name, f, jv in _JITD['spec']:
+            LX, LY = onp.array(jv(np.array(C0), np.array(X))), onp.array(jv(np.array(C0), np.array(Y)))
+            LXY = onp.array(jv(np.array(C0), np.array(a * X + b * Y)))
+            sc = max(1.0, float(onp.abs(LX).max()), float(onp.abs(LY).max()))
+            e_lin = float(onp.abs(LXY - a * LX - b * LY).max()) / sc
+            q = (onp.array(f(np.array(Cp))) - onp.array(f(np.array(Cm)))) / (2 * h)
+            e_dq = float(onp.abs(q - LX).max()) / sc
+            worst = max(worst, e_dq)
+            ctx.count('spec_diff_checks', 2)
+            if not (onp.isfinite(LX).all() and e_lin <= 1e-12 and e_dq <= 2e-7):
+                fails.append(dict(kind='conclusion', concrete=True,
+                                  what='%s at C0 = Fe^T Fe [%s]: jax.jvp is not the derivative along the symmetric curve (Fe+hD)^T(Fe+hD): linearity defect %.3g, '
+                                       'jvp vs central difference quotient %.3g (relative)' % (name, kind, e_lin, e_dq),
+                                  case=dict(model=name, check='spec_diff', H=H, Q=Q, Fe=Fe.tolist(), D=D.tolist(), value=[e_lin, e_dq])))
+    ctx.cov['spec_diff_worst_quotient_error'] = worst
+    return fails
+
+
+MAT9 = '(fun A : mat PrimFloat.float => [m00 A; m01 A; m02 A; m10 A; m11 A; m12 A; m20 A; m21 A; m22 A])'
+
+
+def l1_spectral(ctx, n):
+    """ties the spectral models the theorems C08_*_of_spectral_function are about (model/M_C08s.v pw_spec, model/M_C11s.v lss_spec:
+    V diag(f(lam)) V^T) to TensorMath.pow_symm / log_sqrt_symm, with the eigen-pairs returned by TensorMath.eigen_sym33_unit as the oracle
+    (same formula, rounding only), evaluated in binary64 inside Coq; incl. degenerate spectra and the identity."""
+    import jax
+    import jax.numpy as np
+    import numpy as onp
+    from optimism import TensorMath
+    if 'l1s' not in _JITD:
+        _JITD['l1s'] = (jax.jit(TensorMath.eigen_sym33_unit), jax.jit(TensorMath.log_sqrt_symm))
+    f_eig, f_lss = _JITD['l1s']
+    r = ctx.rng('l1spec')
+    exprs, want, info = [], [], []
+    for k in range(n):
+        H, kind = gen_H(r)
+        if k == 0:
+            H, kind = [[0.0] * 3 for _ in range(3)], 'rest'
+        F = onp.array(H) + onp.eye(3)
+        C0 = F.T @ F
+        m = POW_EXPONENTS[k % len(POW_EXPONENTS)]
+        lam, V = (onp.asarray(x) for x in f_eig(np.array(C0)))
+        if ('powf', m) not in _JITD:
+            _JITD[('powf', m)] = jax.jit(lambda A, m=m: TensorMath.pow_symm(A, m))
+        P = onp.asarray(_JITD[('powf', m)](np.array(C0)))
+        L = onp.asarray(f_lss(np.array(C0)))
+        if not (onp.isfinite(lam).all() and onp.isfinite(V).all() and onp.isfinite(P).all()):
+            ctx.fail('correspondence', 'TensorMath.eigen_sym33_unit / pow_symm return non-finite values for C = F^T F [%s]' % kind,
+                     case=dict(model='TensorMath.pow_symm', check='correspondence', H=H, m=m))
+            continue
+        eig = '(fun _ => ((%s, %s, %s), %s))' % (C.cf(float(lam[0])), C.cf(float(lam[1])), C.cf(float(lam[2])), cm(V))
+        exprs.append('fencs (%s (pw_spec %s %s %s) ++ %s (lss_spec %s %s))' % (MAT9, eig, cm(C0), C.cf(m), MAT9, eig, cm(C0)))
+        want.append(P.ravel().tolist() + L.ravel().tolist())
+        info.append(dict(H=H, kind=kind, m=m, scale=max(1.0, float(onp.abs(P).max()), float(onp.abs(L).max()))))
+        ctx.count('spectral_kind_%s' % kind)
+    res = C.coq_eval(IMPORTS, exprs, 'C08s', shard=100, timeout=900)
+    mism = 0
+    for zs, ws, inf in zip(res, want, info):
+        got = C.dec_floats(zs)
+        for i, (g, w) in enumerate(zip(got, ws)):
+            ctx.count('spectral_model_vs_impl_comparisons')
+            # same formula as the implementation; np.power / np.log against the model's exp(m ln x) / ln (few-ulp approximations)
+            if not C.close(g, w, rtol=1e-11, atol=4e-13 * inf['scale']):
+                mism += 1
+                if mism <= 10:
+                    ctx.fail('correspondence', 'spectral model of %s: entry %d = %r but the implementation gives %r [%s]'
+                             % ('TensorMath.pow_symm(., %r)' % inf['m'] if i < 9 else 'TensorMath.log_sqrt_symm', i % 9, g, w, inf['kind']),
+                             case=dict(model='spectral', check='correspondence', H=inf['H'], m=inf['m'], output=i, model_value=g, impl=w))
+    ctx.count('spectral_model_vs_impl_mismatches', mism)
+    if info:
+        ctx.sample(dict(fn='L1-spectral', H=info[-1]['H'], kind=info[-1]['kind'], m=info[-1]['m'], impl=want[-1][:9]))
+
+
 def pk1_closed_form(name, H):
     """the explicit first Piola-Kirchhoff tensors of coq/proofs/L_C08c.v (P_neo_coupled, P_adagio, P_gent, P_le_gl), plain numpy"""
     import numpy as onp
@@ -657,6 +825,8 @@ def correspondence(ctx, model_ok):
     fails += check_state_invariance(ctx, cases[: ctx.n(3, 12)], batch=False)
     fails += check_pf_gradient(ctx, cases[: ctx.n(10, 100)])
     fails += check_lss_derivative(ctx, ctx.n(6, 60))
+    fails += check_pow_derivative(ctx, ctx.n(8, 80))
+    fails += check_spec_diff(ctx, cases[: ctx.n(20, 200)])
     fails += check_pk1(ctx, cases[: ctx.n(12, 120)])
     nfin = sum(1 for m in models().values() if m['finite'])
     ctx.count('evaluations', len(cases) * nfin * 3 + 2 * len(models()))
@@ -672,6 +842,9 @@ def correspondence(ctx, model_ok):
         lc = l1_cases(ctx, ctx.n(21, 240))
         l1_run(ctx, lc)
         ctx.count('evaluations', len(lc) * 14)
+        ns = ctx.n(16, 160)
+        l1_spectral(ctx, ns)
+        ctx.count('evaluations', ns * 2)
 
 
 def search(ctx, reasons):
@@ -686,6 +859,8 @@ def search(ctx, reasons):
     fails += check_state_invariance(c2, cases[:60], batch=False)
     fails += check_pf_gradient(c2, cases[:60])
     fails += check_lss_derivative(c2, 40)
+    fails += check_pow_derivative(c2, 40)
+    fails += check_spec_diff(c2, cases[:100])
     fails += check_pk1(c2, cases[:60])
     known = [f for f in C.load_known_findings() if f['property'] == ID and f['status'] == 'open']
     for f in fails:
@@ -837,6 +1012,14 @@ def replay(ctx, path):
     import jax.numpy as np
     if case.get('check') == 'lss_derivative':
         fails = check_lss_derivative(ctx, 12)
+        print('implementation now:', [x['what'] for x in fails] or 'conclusion holds')
+        return 1 if fails else 0
+    if case.get('check') == 'pow_derivative':
+        fails = check_pow_derivative(ctx, 16)
+        print('implementation now:', [x['what'] for x in fails] or 'conclusion holds')
+        return 1 if fails else 0
+    if case.get('check') == 'spec_diff':
+        fails = check_spec_diff(ctx, [(case['H'], 'replay', case['Q'])] * 2)
         print('implementation now:', [x['what'] for x in fails] or 'conclusion holds')
         return 1 if fails else 0
     md = models().get(case.get('model'))
